@@ -98,10 +98,13 @@ where
     FrameFn: FnOnce(&str, u32) -> T2 + Sync,
     T2: Future<Output = Result<FrameIO, Error>>,
 {
-    let mut ctx_lock = ctx.write().await;
-    let socket = ctx_lock.borrow_client_stream().unwrap();
-    let request = HttpRequest::read_from(socket).await?;
+    // read the request without holding the context lock: a client that never sends
+    // its request must not block readers of this context (and, through them, the registry)
+    let mut stream = ctx.write().await.take_client_stream();
+    let request = HttpRequest::read_from(&mut stream).await?;
     tracing::trace!("request={:?}", request);
+    let mut ctx_lock = ctx.write().await;
+    let socket = &mut stream;
     if request.method.eq_ignore_ascii_case("CONNECT") {
         let protocol = request.header("Proxy-Protocol", "tcp");
         // let host = request.header("Host", "0.0.0.0:0");
@@ -147,6 +150,7 @@ where
         bail!("Invalid request method: {}", request.method);
     }
     trace!("Request: {:?}", ctx_lock);
+    ctx_lock.set_client_stream(stream);
     drop(ctx_lock);
     ctx.enqueue(&queue).await?;
     Ok(())
